@@ -501,14 +501,16 @@ let run_ns (dir : string) (nsout : string) =
                (* --dev-file: WHICH nodes are selected (a node named twice may be selected once or twice) *)
                let dev_sets_differ () =
                  let mt = Array.of_list (String.split_on_char ' ' model_str) in
-                 (try List.sort_uniq compare (List.map hex_of_bytes (sel_of_sd mt 0)) <> List.sort_uniq compare (List.map hex_of_bytes sel) with _ -> true) in
+                 let cz l = List.sort_uniq compare (List.map (fun a -> match canon a with Some c -> hex_of_bytes c | None -> hex_of_bytes a) l) in
+                 (try cz (sel_of_sd mt 0) <> cz sel with _ -> true) in
                if rest t off <> model_str && (if is_dev then dev_sets_differ () else norm_groups 2 2 (rest t off) <> norm_groups 2 2 model_str) then diff (engine ^ ":" ^ mode) (rest t off) model_str;
                let csel = if is_dev then List.filter_map canon sel else sel in
                if not (no_virtual_listed !truth csel) then hit "C16.virtual" engine (enc_paths sel) "no node of a /devices/virtual/input/ device";
                (match guard () with
                 | Some exp -> incr n_guarded;
                   let srt l = List.sort compare (List.map hex_of_bytes l) in
-                  let srtu l = List.sort_uniq compare (List.map hex_of_bytes l) in
+                  (* as sets of the nodes the arguments resolve to (an argument may name a node through a symlink) *)
+                  let srtu l = List.sort_uniq compare (List.map (fun a -> match canon a with Some c -> hex_of_bytes c | None -> hex_of_bytes a) l) in
                   if not (beq_list beq_bytes sel exp) && (if is_dev then srtu sel <> srtu exp else srt sel <> srt exp) then hit clause engine (enc_paths sel) (enc_paths exp)
                 | None -> ())
              end
